@@ -28,6 +28,11 @@ VMeasure(r) ==
   ELSE IF w # "ok" THEN Bad("measure|" \o k \o "|" \o w \o (IF HasEmptyPart(k, v) THEN "|empty-polygon-member" ELSE ""), 0)
   ELSE IF Len(r.parts) # np THEN Bad("measure|" \o k \o "|part-count", 0)
   ELSE IF badp # {} THEN Bad("measure|" \o k \o "|part|" \o MOne(r.parts[FirstOf(badp)], PartKind(k), v[FirstOf(badp)]), FirstOf(badp))
+  \* the same value built through the Flat constructor (empty members as empty, non-nil offset slices) and its Clone: the
+  \* measures are those of the value, whatever representation holds it
+  ELSE IF "alts" \in DOMAIN r /\ \E j \in DOMAIN r.alts : MOne(r.alts[j], k, v) # "ok"
+       THEN LET j == FirstOf({j \in DOMAIN r.alts : MOne(r.alts[j], k, v) # "ok"}) IN
+            Bad("measure|" \o k \o "|flat-constructor-representation|" \o MOne(r.alts[j], k, v), j)
   ELSE OK
 
 \* ---------------------------------------------------------------- C14
